@@ -3,7 +3,7 @@
     Vocabulary (Model/StrSrc.v, Spec/C14.v, Proofs/StrSrcViews.v):
     [src]       a string source expression together with the state of its Python objects;
     [den x]     the text the expression denotes (declarative: Spec/C14.v);
-    [run b accs x]  the observations made by the access sequence [accs] (as_str, as_lines, as_file,
+    [run b accs x]  the observations made by the access sequence [accs] (as_str, as_lines, as_file, write_to,
                 may_depend_on_external_resources, freeze - in any order, any length) on [x] created
                 with mem_buff_size [b];
     [obs_ok t o]  observation [o] shows exactly the text [t]: same characters, divided into lines
@@ -14,7 +14,7 @@
                 NEL LS PS);
     [lfs_ok x]  every line transformation in the expression maps well-formed sequences of such lines
                 to well-formed sequences of such lines, every external program (program sources with
-                their stdin parts, [run]) maps such texts to such texts, every concat has at least one part. *)
+                their stdin parts, [run]) maps such texts to such texts and prints the same at every run, every concat has at least one part. *)
 From Coq Require Import NArith List Bool.
 From Exactly Require Import Lib.Text Lib.TextLemmas Model.StrSrc Spec.C14 Proofs.Utf8 Proofs.StrSrcSpool Proofs.StrSrcViews
   Proofs.StrSrcMatch.
@@ -195,10 +195,10 @@ Print Assumptions C14_identity_and_conj_idempotent_refuted.
     newline, a buffer smaller than the text, accesses before and after freezing - satisfies the
     hypotheses of the main theorem, rolls over to disk, and shows one value. *)
 Example C14_example :
-  let x := build (SProg PFile (g_prefix [8364; 97; 10]) cs0 [SStr [10; 98; 99]]) (Some (TSeq [TId; TReplace (subst [97; 10] [97]); TFilter (p_num_ge 1); TRun g_cat; TUpper])) in
+  let x := build (SProg PFile (det (g_prefix [8364; 97; 10])) cs0 [SStr [10; 98; 99]]) (Some (TSeq [TId; TReplace (subst [97; 10] [97]); TFilter (p_num_ge 1); TRun g_cat; TUpper])) in
   leaves_ok x = true /\ den x = [8364; 65; 10; 66; 67] /\
-  fst (run 2 [AFile; AFreeze; ADep; ALines; AStr; AFile] x)
-  = [OFile (FText [8364; 65; 10; 66; 67]); OFrozen; ODep true; OLines [[8364; 65; 10]; [66; 67]];
+  fst (run 2 [AFile; AFreeze; ADep; AWrite; ALines; AStr; AFile] x)
+  = [OFile (FText [8364; 65; 10; 66; 67]); OFrozen; ODep true; OWritten (FText [8364; 65; 10; 66; 67]); OLines [[8364; 65; 10]; [66; 67]];
      OStr [8364; 65; 10; 66; 67]; OFile (FText [8364; 65; 10; 66; 67])].
 Proof. cbv zeta. split; [vm_compute; reflexivity|]. split; vm_compute; reflexivity. Qed.
 
@@ -206,7 +206,7 @@ Proof. cbv zeta. split; [vm_compute; reflexivity|]. split; vm_compute; reflexivi
     model from a file through a transformer chain, small buffer. *)
 Example C14_example_verdicts :
   let x := build (SFile [97; 10; 98; 10; 99]) (Some (TAtom (TFilter (p_num_ne 2)))) in
-  let m := MConj (MNeg MEmpty) (MDisj (MNumLines CGe 3) (MOnTrans (TSeq [TUpper; TId]) (MEquals (SConcat cs0 [SFile [65]; SStr []; SProg PFd g_cat cs0 [SStr [10]; SFile [67]]])))) in
+  let m := MConj (MNeg MEmpty) (MDisj (MNumLines CGe 3) (MOnTrans (TSeq [TUpper; TId]) (MEquals (SConcat cs0 [SFile [65]; SStr []; SProg PFd (det g_cat) cs0 [SStr [10]; SFile [67]]])))) in
   leaves_ok x = true /\
   map (fun m' => fst (m_eval 1 100 m' x)) (variants m) = [Some true; Some true; Some true; Some true] /\
   kind_verdicts PFile true 2 100 [97; 10; 98] [97; 10; 98] (Some (TAtom TId)) = repeat (Some true) 9.
